@@ -6,6 +6,7 @@ import (
 	"time"
 
 	"verifharness/core"
+	"verifharness/gen"
 	"verifharness/hist"
 	"verifharness/run"
 )
@@ -147,11 +148,20 @@ func checkC04(c *core.Ctx) {
 			return
 		}
 		scn := w.Witness.Scenario
+		if scn.Hist < 0 {
+			c04Long(c, -1-scn.Hist)
+			return
+		}
 		h, tables := c04History(c, scn.Hist)
 		l := h.Build()
 		start := hist.Pos{File: h.FirstFile, Off: 4}
 		c04Run(c, scn, h, l, tables, hist.Expect(h, l, start), start)
 		return
+	}
+	for i := 0; i < c.N(4, 48); i++ {
+		if c.Mine(i) {
+			c04Long(c, i)
+		}
 	}
 	n := 0
 	for hidx := 0; hidx < nh; hidx++ {
@@ -168,6 +178,46 @@ func checkC04(c *core.Ctx) {
 			c04Run(c, scn, h, l, tables, exp, start)
 		}
 	}
+}
+
+// c04Long: one streamer, one long history, many consecutive failed attempts of
+// random kinds at random points, then a clean attempt: the ledger must still
+// see every transaction accepted exactly once and in order.
+func c04Long(c *core.Ctx, idx int) {
+	r := c.Rng(core.StrID("c04long"), uint64(idx))
+	cb := allCombos()[r.Intn(24)]
+	o := cb.hopts(r)
+	o.MaxCols, o.MaxRows, o.MaxStmts, o.MaxEvents, o.MaxTables = 4, 2, 2, 1, 3
+	o.NoJSON = true
+	ntx := c.N(60, 300)
+	h, tables := gen.RandomHistory(r, o, ntx, 3+r.Intn(4))
+	l := h.Build()
+	start := hist.Pos{File: h.FirstFile, Off: 4}
+	exp := hist.Expect(h, l, start)
+	var chain []faultSpec
+	nf := c.N(25, 80)
+	kinds := append(append(append([]string{}, packetKinds...), txKinds...), "mapper-err", "mapper-count", "read-error", "connect-refused", "set-rejected", "dump-write-fail")
+	for i := 0; i < nf; i++ {
+		k := kinds[r.Intn(len(kinds))]
+		f := faultSpec{Kind: k, Lock: r.Bool()}
+		switch {
+		case isPacketKind(k):
+			f.At = 2 + r.Intn(60)
+		case isTxKind(k):
+			f.At = r.Intn(8)
+		case isMapperKind(k):
+			f.At = r.Intn(3)
+		case k == "read-error":
+			f.At = r.Intn(20000)
+		}
+		if k == "err" {
+			f.Code, f.Msg, f.State = uint16(1+r.Intn(65535)), randMsg(r), "HY000"
+		}
+		chain = append(chain, f)
+	}
+	scn := c04Scn{Hist: -1 - idx, Chain: chain}
+	c04Run(c, scn, h, l, tables, exp, start)
+	c.Cell("long-chain")
 }
 
 func c04Run(c *core.Ctx, scn c04Scn, h *hist.History, l *hist.Layout, tables []*hist.Table, exp []hist.ExpTx, start hist.Pos) {
